@@ -669,6 +669,41 @@ class Interp(ExprMixin, CallMixin):
         it = self.eval(st.iter, fr)
         items = self.iter_items(it)
         search = self.is_search_loop(st)
+        if items is None and isinstance(it, Sym) and it.op == 'phi' and len(it.args) == 2 and getattr(it, 'cond', None) is not None and \
+                all(isinstance(x, ListV) and x.complete and len(x.items) <= 16 for x in it.args) and not search and not st.orelse:
+            # a list that one branch of an ``if`` extended (``vectors = [a, c]; if b is not None: vectors.insert(1, b)``): the loop is the
+            # conditional over the two spelled-out loops
+            node = Alt(it.cond, [], [], st)
+            fr.emit(node)
+            a = self.fork(fr, node.then)
+            b = self.fork(fr, node.orelse)
+            a.cond_depth += 1
+            b.cond_depth += 1
+            statuses = []
+            for sub, lst in ((a, it.args[0]), (b, it.args[1])):
+                status = 'next'
+                sub.unrolled = getattr(sub, 'unrolled', 0) + 1
+                sub.in_loop += 1
+                for item in lst.items:
+                    self.bind_target(st.target, item, sub, st)
+                    status = self.exec_body(st.body, sub)
+                    if status != 'next':
+                        break
+                    status = 'next'
+                sub.unrolled -= 1
+                sub.in_loop -= 1
+                statuses.append(status)
+            node.then_status, node.else_status = statuses
+            if statuses == ['next', 'next']:
+                self.merge_env(fr, it.cond, a, b)
+                return 'next'
+            if statuses[0] == 'next':
+                fr.env = a.env
+                return 'next'
+            if statuses[1] == 'next':
+                fr.env = b.env
+                return 'next'
+            return statuses[0] if statuses[0] == statuses[1] else ('return' if 'return' in statuses else 'raise')
         if items is not None and len(items) <= 64 and not isinstance(it, (str, bytes)) and not search:
             fr.unrolled = getattr(fr, 'unrolled', 0) + 1
             fr.in_loop += 1
